@@ -132,6 +132,34 @@ def run(v, O):
         out.append((f'{name}: unit factor', O.eq(ref_units(r.units())[0], f ** float(want), 1e-9)))
     return out
 '''
+NPLEFT_SRC = '''
+import numpy as np
+def run(v, O):
+    # a NumPy number or array on the LEFT of an operator (the documentation's  np.array([1,2,3]) * Constant('c') ): same result as the Python number / list there
+    out = []
+    def outcome(fn):
+        try:
+            r = fn()
+            return ('ok', np.asarray(r.value(), dtype=float).tolist(), r.units())
+        except Exception as e:
+            return ('raised', type(e).__name__)
+    lefts = [('np.float64', np.float64(2.5), 2.5), ('np.int64', np.int64(3), 3), ('np.float32', np.float32(0.5), 0.5), ('1-d array', np.array([1., 2., 3.]), [1., 2., 3.]), ('2-d array', np.array([[1., 2.], [3., 4.]]), [[1., 2.], [3., 4.]]),
+             ('int array', np.array([1, 2, 3]), [1, 2, 3])]
+    for lname, npv, pyv in lefts:
+        for u in v.units:
+            mk = (lambda: Quantity(4.0, u)) if u else (lambda: Quantity(4.0))
+            for oname, op in (('*', lambda a, b: a * b), ('/', lambda a, b: a / b), ('+', lambda a, b: a + b), ('-', lambda a, b: a - b)):
+                want = outcome(lambda: op(pyv, mk()))
+                got = outcome(lambda: op(npv, mk()))
+                out.append((f'{lname} {oname} quantity in {u}: as with the Python number on the left', O.same(got[0], want[0]) and (got[0] != 'ok' or (O.same(got[2], want[2]) and O.same(np.allclose(got[1], want[1], rtol=1e-12), True)))))
+                if oname in '*/' and u:
+                    out.append((f'{lname} {oname} quantity in {u}: accepted', O.same(got[0], 'ok')))
+    q = np.array([1., 2., 3.]) * Quantity(2.0, 'km')
+    out.append(('array * quantity: value', O.same(np.asarray(q.value()).tolist(), [2., 4., 6.]) if hasattr(q, 'value') else False))
+    out.append(('array * quantity: units', O.same(q.units(), 'km') if hasattr(q, 'units') else False))
+    out.append(('array * quantity: base value', O.same(np.allclose(np.asarray(q.value('m')), [2000., 4000., 6000.]), True) if hasattr(q, 'value') else False))
+    return out
+'''
 ARRAY_SRC = '''
 def run(v, O):
     fa = ref_units(v.ua)[0]; fb = ref_units(v.ub)[0]
@@ -196,6 +224,7 @@ def scenarios(tier, seed):
     for ua, ub in [('km', 'm'), ('J', 'erg'), ('kg', 'g')]:
         S.append(Scenario(f'array/{ua}|{ub}', ARRAY_SRC, {'a': 'real', 'b': 'real', 'a2': 'real', 'b2': 'real'}, ['v.b != 0', 'v.b2 != 0'],
                           consts={'ua': ua, 'ub': ub}, preamble=PRE, what=f'array arithmetic {ua} with {ub}', samples=1))
+    S.append(Scenario('numpy-left-operand', NPLEFT_SRC, {}, consts={'units': ['m', 'km/s', '%', None, '[c]']}, preamble=PRE, what='NumPy scalars and arrays on the left of * / + - (concrete)', samples=1))
     S.append(Scenario('canary/addsub', ADDSUB_SRC.replace('v.b * fb, 1e-9)), (\'a-b base\'', '2 * v.b * fb, 1e-9)), (\'a-b base\''), R2, consts={'ua': 'km', 'ub': 'm'}, preamble=PRE, canary=True))
     S.append(Scenario('canary/pow', POW_SRC.replace('[x * want for x in d]', '[x * want * 2 for x in d]'), {'a': 'real'}, ['v.a > 0'], consts={'u': 'm', 'n': 1, 'd': 2}, preamble=PRE, canary=True))
     return S
@@ -211,4 +240,16 @@ def tasks(tier, seed):
 def run_task(task):
     S = scenarios(task['tier'], task['seed'])
     i, k = task['slice']
-    return run_scenarios(S[i::k], unitkit.units_patches, timeout_ms=20000, seed=task['seed'], div_zero='fork')
+    mine = S[i::k]
+    res = run_scenarios([x for x in mine if x.key != 'numpy-left-operand'], unitkit.units_patches, timeout_ms=20000, seed=task['seed'], div_zero='fork')
+    import contextlib
+    res2 = run_scenarios([x for x in mine if x.key == 'numpy-left-operand'], contextlib.nullcontext, timeout_ms=20000, seed=task['seed'])      # concrete inputs on the unpatched library
+    for key, val in res2.items():
+        if key == 'stats':
+            for kk, vv in val.items():
+                res['stats'][kk] = res['stats'].get(kk, 0) + vv
+        elif isinstance(val, list):
+            res[key] = res.get(key, []) + val
+        else:
+            res[key] = res.get(key, 0) + val
+    return res
